@@ -9,7 +9,22 @@ working counters, counts exactly the mismatching ones (returned counters:
 expected, expected-1, 0 and wrong values that equal the expected one in their
 low 8 / 15 bits), all only in a pass that ran the group program with output
 enabled; nothing is returned to the bus with an enabled writer unless the
-group program processed it in that pass with output enabled.
+group program processed it in that pass.  Every distinct step with output
+disabled (start-up, just registered) or without a registered program is also
+fed the frame with its write datagrams ENABLED - the activated frame of an
+earlier group in the same slot, still on the wire - with counters as
+expected, all 0, one wrong, all wrong: nothing may be counted, re-enabled or
+cleared in such a pass (wkc_errors is also the output enable: one counted
+error would switch output on), and the frame leaves the bus or goes back with
+its writers disabled.  Reading of the last sentence of the statement (see
+res.assumptions): "processed in that pass" = the group's program ran with
+output enabled, so that the outputs in the frame were computed in that pass;
+disabling write datagrams is allowed in any pass.  On the unchanged tree the
+program of a group with output disabled returns such a frame as it came,
+still enabled (known finding C21-activated-frame-adopted-by-disabled-group,
+attributed only to exactly that shape).  The same explorations also
+run with the loop counter word above 255 when the dispatcher turns out to
+depend on its upper bits (see c22_dispatcher).
 
 Life cycle (harness/c22_dispatcher.py, `Life`): the real FastSyncGroup.run
 and FastEtherCat.register_sync_group with frames really passing the real
@@ -42,7 +57,9 @@ from ebpfcat.ebpfcat import SimpleEtherCat
 PROP = "C21"
 LEVEL = _x.LEVEL
 RULE = _x.RULE + ("; C21 judges every distinct dispatcher+group step of that "
-                  "space (frame before/after, wkc_errors, device run marker); "
+                  "space (frame before/after, wkc_errors, device run marker), "
+                  "including the steps fed an enabled frame while output is "
+                  "disabled or no program is registered; "
                   "user-space side: all sequences of {processed frame, "
                   "untouched frame, no answer in time} over the cycle bound "
                   "for every layout, every frame given to the transport "
